@@ -391,6 +391,12 @@ def classify(res, text, linemap, units):
             u = units.get(fn, {})
             ftags = set(u.get('direct', u.get('props', []))) - {'C03'}
             stags = set(u.get('props', [])) - ftags - {'C03'}
+        # Verus goes on after a failed obligation by ASSUMING it (a failed assert, a failed callee precondition, an
+        # invariant that is not preserved): every other obligation of the same function was discharged under that
+        # assumption, so a failure the tags attribute to other properties still leaves every property the function
+        # carries without proof -- they are supported by it (undecided unless a concrete violation is found)
+        u_all = units.get(fn, {})
+        stags = set(stags) | ((set(u_all.get('props', [])) | set(u_all.get('direct', []))) - set(ftags))
         if not ftags and not stags:
             undecided.append('failure that no property claims (function %s, %s): treated as undecided' % (fn, msg))
         clause_text = '; '.join(lines[cl - 1].strip() for cl in clause_lines[:3])
@@ -498,7 +504,8 @@ def main():
         os.makedirs(evdir, exist_ok=True)
         json.dump(ev, open(os.path.join(evdir, pid + '.json'), 'w'), indent=1)
         if not a.keep:
-            shutil.rmtree(work, ignore_errors=True)
+            if not os.environ.get("VERIF_KEEP_SCRATCH"):
+                shutil.rmtree(work, ignore_errors=True)
         else:
             log('kept', work)
     sys.exit(rc)
@@ -903,7 +910,16 @@ def decide(pid, cfg, tier, seed, units, work, ev):
         ev['coverage']['externalised_functions'] = {'functions': ext_all,
             'meaning': 'the front end rejected these functions (annotations no longer fit their text / unsupported construct): '
                        'body dropped, contract assumed, every other function verified; properties they carry are undecided'}
-    affected = [f for f in ext_all if pid in units.get(f, {}).get('props', []) or (f not in units and f.split('::')[0] in cfg['modules'])]
+    def carried(f):
+        # what an externalised function carries: its own tags, and -- for a method of a trait impl, whose contract is
+        # written on the trait's declaration -- those of the declarations of the same name in the same module
+        ps = set(units.get(f, {}).get('props', []))
+        mod, last = f.split('::')[0], f.split('::')[-1]
+        for name, u in units.items():
+            if name != f and name.split('::')[0] == mod and name.split('::')[-1] == last:
+                ps |= set(u.get('props', []))
+        return ps
+    affected = [f for f in ext_all if pid in carried(f) or (f not in units and f.split('::')[0] in cfg['modules'])]
     if affected and not mine:
         w = None
         try:
